@@ -60,13 +60,15 @@ def main():
         axioms = common.lean_build_and_audit(generated_hook, prop)
     except LeanFailure as e:
         lean_failure = e
+        axioms = getattr(e, 'axioms', {})
     if lean_failure is not None and not common.MODEL_BIN.exists():
         print('INFRA: Lean build failed and no model driver is available: %s\n%s' % (lean_failure.what, lean_failure.detail))
         sys.exit(2)
     obligations, discharged, problems = common.proof_status(prop, axioms)
     if lean_failure is not None:
         problems.append('lean: %s: %s' % (lean_failure.what, lean_failure.detail[-1500:]))
-        discharged = 0
+        if not axioms:
+            discharged = 0
     res.proof_problems = problems
 
     try:
